@@ -19,7 +19,8 @@ from .sym import S, Sym, ZERO, evalb, evalf, reachable, show, showb, substitute,
 
 class Case:
     def __init__(self, name, factory, cfg=None, assumptions=None, overrides=None, nominal=None, skip_wrt=(),
-                 max_paths=64, tiers=("quick", "thorough"), note="", timeout=None):
+                 max_paths=64, tiers=("quick", "thorough"), note="", timeout=None, extra=None):
+        self.extra = extra  # module -> {global name: replacement} rebinding during the symbolic run (kernel stubs)
         self.name = name
         self.factory = factory  # cfg -> component instance
         self.cfg = cfg or {}
@@ -107,7 +108,7 @@ def run_case(case: Case, rep, want=("C01", "C03"), timeout=20.0, validate=True):
     overrides = case.overrides(r) if case.overrides else None
     ins = r.sym_inputs(overrides)
     assume = case.assumptions(ins) if case.assumptions else []
-    paths = r.run(ins, assumptions=assume, max_paths=case.max_paths)
+    paths = r.run(ins, assumptions=assume, max_paths=case.max_paths, extra=case.extra)
     info = {"case": case.name, "cfg": _jsonable(case.cfg), "paths": len(paths), "mutable_attrs": r.mutable,
             "approx_pairs_skipped": sorted("%s/%s" % k for k in r.approx_keys)}
 
@@ -300,7 +301,7 @@ def real_eval(case: Case, vals, linearize=True, prob_r=None, history=None):
     r = prob_r or CompRunner(case.factory(dict(case.cfg)), prerun=False)
     prob = r.prob
     if r.implicit:
-        return real_eval_implicit(r, vals, linearize)
+        return real_eval_implicit(r, vals, linearize, history=history)
     with warnings.catch_warnings(), np.errstate(all="ignore"):
         warnings.simplefilter("ignore")
         for hv in history or []:
@@ -350,7 +351,9 @@ def real_eval(case: Case, vals, linearize=True, prob_r=None, history=None):
                         cols[of][:, j] = (4 * est[1][of] - est[0][of]) / 3.0
                 for of in r.out_names:
                     J.setdefault((of, wrt), {})["J_fd"] = cols[of]
-            f(vals)
+            f0 = f(vals)
+            for (of, wrt), e in J.items():
+                e["noise"] = 1e-15 * (1.0 + float(np.max(np.abs(f0[of])))) / 5e-5 * 50
             for key, e in J.items():
                 if "J_fwd" not in e:
                     e["J_fwd"] = np.zeros_like(e["J_fd"])
@@ -359,7 +362,7 @@ def real_eval(case: Case, vals, linearize=True, prob_r=None, history=None):
     return r, outs, J
 
 
-def real_eval_implicit(r, vals, linearize=True):
+def real_eval_implicit(r, vals, linearize=True, history=None):
     """Implicit components: the real apply_nonlinear / linearize called directly on numeric stores
     (the real methods, real numpy); finite differences of the residual for the reference."""
     from .harness import JacStore, VecStore
@@ -383,6 +386,9 @@ def real_eval_implicit(r, vals, linearize=True):
                 shape = (len(m["rows"]),) if m["rows"] is not None else m["shape"]
                 init = np.broadcast_to(m["val"], shape) if m["rows"] is not None else m["val"].reshape(shape)
                 jac[k] = np.array(init, dtype=float).copy()
+            for hv in history or []:  # same live storage, earlier point(s)
+                _, Ih, Oh = resid(hv)
+                comp.linearize(Ih, Oh, JacStore(r.jinfo, jac))
             comp.linearize(I, O, JacStore(r.jinfo, jac))
             J = {}
             names = r.in_names + r.out_names
@@ -410,7 +416,8 @@ def real_eval_implicit(r, vals, linearize=True):
                             vp[wrt] = a.reshape(base.shape); vm[wrt] = b.reshape(base.shape)
                             col.append((resid(vp)[0][of].ravel() - resid(vm)[0][of].ravel()) / (2 * h))
                         fd[:, j] = (4 * col[1] - col[0]) / 3.0
-                    J[key] = {"J_fwd": d, "J_fd": fd}
+                    J[key] = {"J_fwd": d, "J_fd": fd,
+                              "noise": 1e-15 * (1.0 + float(np.max(np.abs(outs[of])))) / 5e-5 * 50}
     return r, outs, J
 
 
@@ -466,7 +473,7 @@ def validate_case(case: Case, out):
             if e1 > maxerr:
                 maxerr, worst = e1, (o.id, "J_code dag %.6g vs real %.6g" % (a, jf))
         if b == b and o.verdict == "discharged":
-            e2 = abs(b - jd) / scale
+            e2 = max(0.0, abs(b - jd) - J[key].get("noise", 0.0)) / scale
             if e2 > 1e-5 and e2 > maxerr:
                 maxerr, worst = e2, (o.id, "derivative dag %.6g vs central-difference %.6g" % (b, jd))
         n += 1
